@@ -24,23 +24,78 @@ def to_dict(container):
 '''
 
 
+TYPE_SUPERS = {
+    "EnumIntegerString": {"EnumIntegerString", "str"}, "int": {"int"}, "bool": {"bool", "int"}, "float": {"float"}, "str": {"str"}, "bytes": {"bytes"},
+    "complex": {"complex"}, "datetime": {"datetime", "date"}, "ListContainer": {"ListContainer", "list"}, "list": {"list"}, "tuple": {"tuple"},
+    "Container": {"Container", "dict"}, "dict": {"dict"},
+}
+
+
+def _type_names(t):
+    if t[0] == "name":
+        return [t[1]]
+    if t[0] == "attr":
+        return [t[2]]
+    if t[0] == "tuple":
+        return [n for x in t[1] for n in _type_names(x)]
+    raise Undecidable(f"type expression {t!r:.60}")
+
+
+def _select_by_type(paths, cls, param=("param", 0)):
+    """the result term of the path taken for an argument of class ``cls`` (conditions must be isinstance tests on the argument)"""
+    from ..symexpr import alpha, lift_conditionals
+
+    def truth(c):
+        if c[0] == "not":
+            return not truth(c[1])
+        if c[0] == "truth":
+            return truth(c[1])
+        if c[0] == "call" and c[1] == ("name", "isinstance") and len(c[2]) == 2 and c[2][0] == param:
+            return bool(set(_type_names(c[2][1])) & TYPE_SUPERS[cls])
+        if c[0] in ("and", "or"):
+            vals = [truth(x) for x in c[1]]
+            return all(vals) if c[0] == "and" else any(vals)
+        raise Undecidable(f"condition {c!r:.80} is not a type test on the argument")
+    hits = [res for conds, res in lift_conditionals(paths) if all(truth(c) for c in conds)]
+    if len(hits) != 1:
+        raise Undecidable(f"{len(hits)} paths apply to a {cls}")
+    return alpha(hits[0])
+
+
 def to_dict_contract(chk, repo, rule):
     """utils.to_dict turns parsed Containers into the plain dict/list/tuple shapes the pipelines (and the
     shape inference) assume: enums -> str, ListContainer -> list, tuples (Metadata pairs) stay tuples,
-    the '_io' entry is dropped"""
+    the '_io' entry is dropped.  Decided per class of argument (the function only dispatches on the argument's type)."""
+    from ..symexpr import Canon
     um = repo.module("ceos_alos2.utils")
     fi = um.func("to_dict")
     where = f"{um.relpath}:to_dict"
+    # module-level tuples of types used in the tests
+    extra = {}
+    for name, exprs in um.assigns.items():
+        if len(exprs) == 1 and isinstance(exprs[0], ast.Tuple) and all(isinstance(e, (ast.Name, ast.Attribute)) for e in exprs[0].elts):
+            extra[name] = Canon({})(exprs[0])
     try:
-        _, got = summarize(fi.node)
+        _, got = summarize(fi.node, extra_env=extra)
         _, want = summarize_source(TO_DICT_SPEC)
     except Undecidable as e:
         raise AnalysisError(f"{where} outside the decidable fragment: {e}")
     v = compare_paths(got, want)
-    if v == "incomparable":
-        raise AnalysisError(f"{where}: normal form differs in shape from its specification ({show_paths(got)[:240]}); equivalence not decidable by normalisation")
-    chk.require(v == "equal", rule, where, "to_dict: enums -> str, scalars unchanged, ListContainer -> list, other sequences keep their type (Metadata pairs stay tuples), Containers -> dict without '_io'",
-                f"to_dict computes {show_paths(got)[:300]}: parsed values no longer reach the pipelines in the shape they expect ((value, attrs) pairs / enum names / list containers)",
+    if v == "equal":
+        chk.ok(rule, where, "to_dict: enums -> str, scalars unchanged, ListContainer -> list, other sequences keep their type (Metadata pairs stay tuples), Containers -> dict without '_io'",
+               sample={"normal form": show_paths(got)[:200]})
+        return
+    # same decision, written differently?  one case per class of argument
+    diffs = []
+    try:
+        for cls in TYPE_SUPERS:
+            g, w = _select_by_type(got, cls), _select_by_type(want, cls)
+            if g != w:
+                diffs.append(f"{cls}: {__import__('vlib.symexpr', fromlist=['show']).show(g)[:80]} instead of {__import__('vlib.symexpr', fromlist=['show']).show(w)[:80]}")
+    except Undecidable as e:
+        raise AnalysisError(f"{where}: normal form differs in shape from its specification and the per-type case analysis does not apply ({e}); {show_paths(got)[:200]}")
+    chk.require(not diffs, rule, where, f"to_dict agrees with its specification for every class of argument ({', '.join(TYPE_SUPERS)})",
+                f"to_dict treats {diffs[:3]}: parsed values no longer reach the pipelines in the shape they expect ((value, attrs) pairs / enum names / list containers)",
                 key="to_dict:contract", sample={"normal form": show_paths(got)[:200]})
 
 
@@ -134,3 +189,55 @@ def spec_compare(chk, rule, fi, spec, good, bad, key):
     if v == "incomparable":
         raise AnalysisError(f"{where}: normal form {show_paths(got)[:200]} differs in shape from its specification; equivalence not decided")
     return chk.require(v == "equal", rule, where, good, f"{bad}: {show_paths(got)[:200]}", key=key)
+
+
+CONSTRUCT_BASES = {"Construct", "Adapter", "Subconstruct", "SymmetricAdapter", "Validator", "Tunnel"}
+PARSE_METHODS = ("_parse", "_decode", "_sizeof", "_actualsize", "_build", "_encode")
+
+
+def stateless_constructs(chk, repo, rule):
+    """the record layouts are module-level singletons shared by every file parsed in the process: a construct class of the
+    package must not store anything on itself while parsing / decoding / sizing, or what one file (or record) left behind
+    decides how the next one is read"""
+    from ..effects import stores
+    chk.rule(rule, "construct classes of the package are stateless: parsing never stores on the (shared, module-level) construct", 8)
+
+    def is_construct(mod, cls, depth=0):
+        for b in cls.bases:
+            r = repo.resolve_expr(mod, b)
+            if r.kind == "external" and r.fq.split(".")[0] == "construct" and r.fq.split(".")[-1][:1].isupper():
+                return True
+            if r.kind == "class" and depth < 5 and is_construct(r.mod, r.node, depth + 1):
+                return True
+        return False
+
+    n = 0
+    for mod in repo.modules.values():
+        if mod.name.endswith(".testing"):
+            continue
+        for q, cls in mod.classes.items():
+            if not is_construct(mod, cls):
+                continue
+            for m in PARSE_METHODS:
+                fi = mod.funcs.get(f"{q}.{m}")
+                if fi is None:
+                    continue
+                n += 1
+                flow = Flow(fi)
+                per_call = set(fi.params) - {"self"}
+                bad = []
+                for kind, root, target, node in stores(repo, fi):
+                    if root != "self":
+                        continue
+                    val = getattr(node, "value", None)
+                    deps = flow.deps(val) if isinstance(val, ast.AST) else per_call
+                    if kind == "mutate" and isinstance(node, ast.Call):
+                        deps = set().union(*[flow.deps(a) for a in node.args]) if node.args else set()
+                    if deps & per_call:
+                        bad.append(short(node, 60))  # what is kept depends on the record being parsed
+
+                chk.require(not bad, rule, f"{mod.relpath}:{q}.{m}", f"{q}.{m} stores nothing on the construct",
+                            f"{q}.{m} stores on the construct itself ({bad[:2]}): the struct is a module-level object, so the value computed for one record / file is reused for every later one "
+                            f"(sizes, reference dates) - later records are decoded with the first one's state", key=f"{mod.name}:{q}.{m}:stateful")
+    if n == 0:
+        raise AnalysisError("anchor vanished: no construct subclass with parse methods in the package")
